@@ -2,6 +2,7 @@
 
 from __future__ import annotations
 
+import heapq
 import json
 from collections.abc import Iterable, Iterator, Mapping
 from dataclasses import dataclass, field, replace
@@ -668,13 +669,33 @@ class Hugr(Mapping[Node, NodeData], Generic[OpVarCov]):
             )
         return mapping
 
+    def _serialization_order(self) -> list[NodeIdx]:
+        """The order in which nodes are written: by index, except where that would
+        put a node before its parent or change the order of siblings (readers
+        rebuild the hierarchy by appending each node to its parent in list order).
+        Indices reused after a deletion can make index order disagree with both.
+        """
+        order: list[NodeIdx] = []
+        ready = [self.root.idx]
+        while ready:
+            idx = heapq.heappop(ready)
+            order.append(idx)
+            data = self._nodes[idx]
+            assert data is not None
+            if data.children:
+                heapq.heappush(ready, data.children[0].idx)
+            if data.parent is not None:
+                siblings = self[data.parent].children
+                pos = siblings.index(Node(idx))
+                if pos + 1 < len(siblings):
+                    heapq.heappush(ready, siblings[pos + 1].idx)
+        return order
+
     def _to_serial(self) -> SerialHugr:
         """Serialize the HUGR."""
-        live = [
-            (idx, node) for idx, node in enumerate(self._nodes) if node is not None
-        ]
-        # non contiguous indices are erased: nodes are renumbered in index order,
-        # and parents and edge endpoints are written with the new indices
+        live = [(idx, self._nodes[idx]) for idx in self._serialization_order()]
+        # non contiguous indices are erased: nodes are renumbered in the order
+        # they are written, and parents and edge endpoints use the new indices
         new_idx = {idx: i for i, (idx, _) in enumerate(live)}
 
         def _serialize_node(idx: NodeIdx, node: NodeData) -> SerialOp:
